@@ -108,6 +108,7 @@ func main() {
 		mainPkgs = load(filepath.Join(repo, "httpClient"), "GOFLAGS=-mod=mod -modfile="+modfile)
 	}
 
+	var mapClasses, mapUnclassified []string
 	var mapSites, clockUses, randUses, goStmts, chanOps, fieldWrites, globalWrites, blankClasses []string
 	seenPkg := map[string]bool{}
 	var all []*packages.Package
@@ -131,7 +132,13 @@ func main() {
 				case *ast.RangeStmt:
 					if tv, ok := p.TypesInfo.Types[v.X]; ok {
 						if _, isMap := tv.Type.Underlying().(*types.Map); isMap {
-							mapSites = append(mapSites, fname+":"+enclosing(file, v.Pos()))
+							site := fname + ":" + enclosing(file, v.Pos())
+							mapSites = append(mapSites, site)
+							cls := classifyMapRange(p, file, v)
+							mapClasses = append(mapClasses, site+" => "+cls)
+							if cls == "unclassified" {
+								mapUnclassified = append(mapUnclassified, site)
+							}
 						}
 					}
 				case *ast.GoStmt:
@@ -320,6 +327,8 @@ func main() {
 		fmt.Fprintf(&out, "/-- %s -/\ndef %s : List String := [\n  %s]\n\n", doc, name, strings.Join(q, ",\n  "))
 	}
 	emit("mapRangeSites", "every `for … range <map>` in non-test code, as file:function (one entry per statement)", mapSites)
+	emit("mapRangeClasses", "structural class of every map-range statement: per-key (the body only defines locals, writes map entries indexed through the loop key, or panics), sorted-before-use (the body only fills a slice that is passed to package sort afterwards), message-only (the enclosing block ends in a panic), or unclassified", mapClasses)
+	emit("mapRangeUnclassified", "map-range statements whose result may depend on the iteration order as far as the structural classifier can tell", mapUnclassified)
 	emit("clockUses", "uses of package time", clockUses)
 	emit("globalRandUses", "uses of the global math/rand source", randUses)
 	emit("goStatements", "go statements", goStmts)
@@ -416,4 +425,235 @@ func enclosingDecl(file *ast.File, pos token.Pos) *ast.FuncDecl {
 		}
 	}
 	return nil
+}
+
+
+// ---------------------------------------------------------------- structural classifier of map ranges
+
+func identsIn(e ast.Node) map[string]bool {
+	m := map[string]bool{}
+	if e == nil {
+		return m
+	}
+	ast.Inspect(e, func(n ast.Node) bool {
+		if id, ok := n.(*ast.Ident); ok {
+			m[id.Name] = true
+		}
+		return true
+	})
+	return m
+}
+
+func mentions(e ast.Node, set map[string]bool) bool {
+	for k := range identsIn(e) {
+		if set[k] {
+			return true
+		}
+	}
+	return false
+}
+
+func isPanicCall(s ast.Stmt) bool {
+	es, ok := s.(*ast.ExprStmt)
+	if !ok {
+		return false
+	}
+	c, ok := es.X.(*ast.CallExpr)
+	if !ok {
+		return false
+	}
+	id, ok := c.Fun.(*ast.Ident)
+	return ok && id.Name == "panic"
+}
+
+// per-key body: statements that cannot make the overall result depend on the visiting order
+//   x := e / x, ok := e          (new locals; tainted when e mentions the key or a tainted local)
+//   m[<mentions key/tainted>] = e, += …   (map entry selected through the loop key)
+//   local (defined in the body) = e
+//   if … { per-key } else { per-key }, panic(…), call statements, continue
+// anything else (accumulating into an outer variable, append to an outer slice, break, return, i++ on an
+// outer counter, …) is not per-key.
+func perKeyBody(p *packages.Package, body []ast.Stmt, tainted, locals map[string]bool) bool {
+	for _, st := range body {
+		switch v := st.(type) {
+		case *ast.AssignStmt:
+			if v.Tok == token.DEFINE {
+				t := false
+				for _, r := range v.Rhs {
+					if mentions(r, tainted) {
+						t = true
+					}
+				}
+				for _, l := range v.Lhs {
+					if id, ok := l.(*ast.Ident); ok {
+						locals[id.Name] = true
+						if t {
+							tainted[id.Name] = true
+						}
+					}
+				}
+				continue
+			}
+			for _, l := range v.Lhs {
+				switch lv := l.(type) {
+				case *ast.IndexExpr:
+					tv, ok := p.TypesInfo.Types[lv.X]
+					if !ok {
+						return false
+					}
+					if _, isMap := tv.Type.Underlying().(*types.Map); !isMap {
+						return false
+					}
+					if !mentions(lv.Index, tainted) {
+						return false
+					}
+				case *ast.Ident:
+					if !locals[lv.Name] && lv.Name != "_" {
+						return false
+					}
+				default:
+					return false
+				}
+			}
+		case *ast.IfStmt:
+			if v.Init != nil {
+				if !perKeyBody(p, []ast.Stmt{v.Init}, tainted, locals) {
+					return false
+				}
+			}
+			if !perKeyBody(p, v.Body.List, tainted, locals) {
+				return false
+			}
+			if v.Else != nil {
+				switch e := v.Else.(type) {
+				case *ast.BlockStmt:
+					if !perKeyBody(p, e.List, tainted, locals) {
+						return false
+					}
+				case *ast.IfStmt:
+					if !perKeyBody(p, []ast.Stmt{e}, tainted, locals) {
+						return false
+					}
+				}
+			}
+		case *ast.ExprStmt:
+			if _, ok := v.X.(*ast.CallExpr); !ok {
+				return false
+			}
+		case *ast.BranchStmt:
+			if v.Tok != token.CONTINUE {
+				return false
+			}
+		case *ast.DeclStmt:
+			// var x T
+			if g, ok := v.Decl.(*ast.GenDecl); ok {
+				for _, sp := range g.Specs {
+					if vs, ok := sp.(*ast.ValueSpec); ok {
+						for _, n := range vs.Names {
+							locals[n.Name] = true
+						}
+					}
+				}
+			}
+		default:
+			return false
+		}
+	}
+	return true
+}
+
+// fill-then-sort: the body only stores into / appends to one outer slice (and advances one counter), and the
+// enclosing function later hands that slice to package sort
+func fillsSlice(body []ast.Stmt) (string, bool) {
+	name := ""
+	set := func(n string) bool {
+		if name == "" || name == n {
+			name = n
+			return true
+		}
+		return false
+	}
+	for _, st := range body {
+		switch v := st.(type) {
+		case *ast.AssignStmt:
+			if len(v.Lhs) != 1 {
+				return "", false
+			}
+			switch l := v.Lhs[0].(type) {
+			case *ast.IndexExpr: // s[i] = …
+				id, ok := l.X.(*ast.Ident)
+				if !ok || !set(id.Name) {
+					return "", false
+				}
+			case *ast.Ident: // s = append(s, …)  |  i += 1
+				if c, ok := v.Rhs[0].(*ast.CallExpr); ok {
+					if f, ok := c.Fun.(*ast.Ident); ok && f.Name == "append" {
+						if !set(l.Name) {
+							return "", false
+						}
+						continue
+					}
+				}
+				if v.Tok != token.ADD_ASSIGN {
+					return "", false
+				}
+			default:
+				return "", false
+			}
+		case *ast.IncDecStmt:
+		default:
+			return "", false
+		}
+	}
+	return name, name != ""
+}
+
+func classifyMapRange(p *packages.Package, file *ast.File, rs *ast.RangeStmt) string {
+	tainted, locals := map[string]bool{}, map[string]bool{}
+	if id, ok := rs.Key.(*ast.Ident); ok && id.Name != "_" {
+		tainted[id.Name] = true
+		locals[id.Name] = true
+	}
+	if id, ok := rs.Value.(*ast.Ident); ok && id.Name != "_" {
+		locals[id.Name] = true
+	}
+	if len(tainted) > 0 && perKeyBody(p, rs.Body.List, tainted, locals) {
+		return "per-key"
+	}
+	fn := enclosingDecl(file, rs.Pos())
+	if slice, ok := fillsSlice(rs.Body.List); ok && fn != nil {
+		sorted, onlyPanic := false, false
+		ast.Inspect(fn.Body, func(n ast.Node) bool {
+			c, ok := n.(*ast.CallExpr)
+			if !ok || c.Pos() < rs.End() {
+				return true
+			}
+			if sel, ok := c.Fun.(*ast.SelectorExpr); ok {
+				if pk, ok := sel.X.(*ast.Ident); ok && pk.Name == "sort" && len(c.Args) > 0 && mentions(c.Args[0], map[string]bool{slice: true}) {
+					sorted = true
+				}
+			}
+			return true
+		})
+		if sorted {
+			return "sorted-before-use"
+		}
+		// message-only: the block that contains the loop ends in a panic
+		ast.Inspect(fn.Body, func(n ast.Node) bool {
+			b, ok := n.(*ast.BlockStmt)
+			if !ok {
+				return true
+			}
+			for i, st := range b.List {
+				if st == ast.Stmt(rs) && i < len(b.List)-1 && isPanicCall(b.List[len(b.List)-1]) {
+					onlyPanic = true
+				}
+			}
+			return true
+		})
+		if onlyPanic {
+			return "message-only"
+		}
+	}
+	return "unclassified"
 }
